@@ -30,7 +30,7 @@ def gen_target(rng, depth_in_root, n):
     """A request path (without route prefix). Net '..' count is bounded so
     that a successful escape stays inside the scratch base."""
     shape = rng.choice(["up-from-root", "up-from-collection", "up-from-member", "encoded-slash", "absolute-form", "double-slash", "plain-outside-name", "long", "nul", "backslash",
-                        "double-encoded-last-segment", "double-encoded-last-segment", "leading-slashes", "compat-chars-last-segment", "dots-after-a-segment-with-url-syntax", "dots-after-a-segment-with-url-syntax"])
+                        "double-encoded-last-segment", "double-encoded-last-segment", "leading-slashes", "compat-chars-last-segment", "dots-after-a-segment-with-url-syntax", "dots-after-a-segment-with-url-syntax", "dot-segments-only", "dot-segments-only"])
     ups = rng.randint(1, 3)
     upseg = [rng.choice(UP) for _ in range(ups)]
     tail = rng.choice(OUTSIDE_EXISTING + ["evil-%d" % n, "evil-%d/" % n, "evil-%d/x.ics" % n, "sibling-cal/new-%d.ics" % n, "canary/new-%d.ics" % n,
@@ -60,6 +60,10 @@ def gen_target(rng, depth_in_root, n):
         first = rng.choice(["q%3Fx", "h%23y", "semi%3Bz", "q%3Fx/deeper"])
         n_up = first.count("/") + 1 + rng.randint(1, 2)
         return "/" + first + "/" + "/".join([".."] * n_up + [tail]), shape
+    if shape == "dot-segments-only":
+        # nothing but a way up: the target is the root or something above it (never a name to be made or found there)
+        lead = rng.choice(["/", "//", "//", "///", "/user/../", "//user/../", "/top/../", "//./"])
+        return lead + "/".join([rng.choice(["..", "..", "%2e%2e", ".%2E"]) for _ in range(ups)]) + rng.choice(["", "", "/", "/."]), shape
     if shape == "leading-slashes":
         k = rng.randint(2, 4)
         return "/" * k + rng.choice(["canary/secret.txt", "canary/", "sibling-cal/m.ics", "evil-%d/" % n]).join(["", ""]) if False else "/" * k + os.path.join(BASE_ABS[0].lstrip("/"), tail), shape
@@ -189,7 +193,7 @@ def run_shard(args):
     # nest the root so that a successful escape of a few levels stays in `top`
     base = os.path.join(top, "l1", "l2", "l3", "l4")
     os.makedirs(base)
-    cfg = {k: args[k] for k in ("fe", "prefix", "seed", "requests", "strace") if k in args}
+    cfg = {k: args[k] for k in ("fe", "prefix", "seed", "requests", "strace", "outer_repo", "root_repo") if k in args}
     violations_n = [0]
 
     def viol(sig, msg, extra=None):
@@ -240,6 +244,11 @@ def run_shard(args):
         ag = None
         os.makedirs(os.path.join(base, "tmp"), exist_ok=True)
         os.makedirs(w.root, exist_ok=True)
+        if args.get("root_repo"):
+            # deployment in which the data directory is itself a git repository (`git init` there, for backups)
+            import subprocess
+            subprocess.run(["git", "init", "-q", w.root], check=True, capture_output=True, env=common.worker_env({"HOME": os.path.join(base, "home")}))
+            res.count("shards_whose_data_directory_is_a_repository")
         if args["fe"] == "wsgi":
             import tempfile
             os.environ["TMPDIR"] = os.path.join(base, "tmp")
@@ -280,6 +289,8 @@ def run_shard(args):
             if not target.startswith("http://"):
                 target = w.prefix.rstrip("/") + target if rng.random() < 0.8 else target
             m = rng.choice(METHODS)
+            if shape == "dot-segments-only" and rng.random() < 0.4:
+                m = "DELETE"     # (the request that would do most harm there)
             hs, body = [], None
             ical = gen.ical(rng, "evil-%d" % i, "evil", rich=False)
             if m == "PUT":
@@ -472,7 +483,7 @@ def check(tier, seed, t0):
     combos = [("aio", "/"), ("wsgi", "/"), ("aio", "/dav/"), ("wsgi", "/dav/")]
     for i in range(12 if not th else 16):
         fe, pre = combos[i % 4]
-        shards.append({"fe": fe, "prefix": pre, "seed": seed * 100 + i, "requests": 800 if not th else 2500, "outer_repo": (i // 4) % 2 == 1})
+        shards.append({"fe": fe, "prefix": pre, "seed": seed * 100 + i, "requests": 800 if not th else 2500, "outer_repo": (i // 4) % 3 == 1, "root_repo": (i // 4) % 3 == 2})
     if th:
         for i, pre in enumerate(("/", "/dav/")):
             shards.append({"fe": "aio", "prefix": pre, "seed": seed * 100 + 50 + i, "requests": 1500, "strace": True})
@@ -485,7 +496,8 @@ def check(tier, seed, t0):
     for m in ("GET", "PUT", "DELETE", "MKCOL", "MKCALENDAR", "PROPFIND", "PROPPATCH", "REPORT", "POST"):
         guards.append(("method " + m, c.get("method:" + m, 0), 50))
     guards.append(("shards whose data directory lies inside another git work tree", c.get("shards_with_outer_repository", 0), 4))
-    for sh in ("dots-after-a-segment-with-url-syntax", "ordinary-below-plain-directory", "up-from-root", "up-from-collection", "up-from-member", "encoded-slash", "absolute-form", "double-slash", "double-encoded-last-segment", "leading-slashes", "compat-chars-last-segment", "backslash", "nul"):
+    guards.append(("shards whose data directory is itself a git repository", c.get("shards_whose_data_directory_is_a_repository", 0), 4))
+    for sh in ("dots-after-a-segment-with-url-syntax", "ordinary-below-plain-directory", "up-from-root", "up-from-collection", "up-from-member", "encoded-slash", "absolute-form", "double-slash", "double-encoded-last-segment", "leading-slashes", "compat-chars-last-segment", "backslash", "nul", "dot-segments-only"):
         guards.append(("targets of shape " + sh, c.get("shape:" + sh, 0), 200))
     guards.append(("accepted POSTs whose UID or Slug header spells a path", c.get("posts_with_a_path_in_uid_or_slug_accepted", 0), 300))
     if th:
